@@ -9,7 +9,7 @@
 (* Serves C01 C02 C03 C04 C06 C07 C16 C17 (the workload decides which       *)
 (* part of the state space the trace walks through).                        *)
 (***************************************************************************)
-EXTENDS SoPlexAPI, Json, IOUtils
+EXTENDS SoPlexAPI, Json, IOUtils, SequencesExt
 BF == INSTANCE BasisFile
 
 Tr == ndJsonDeserialize(IOEnv.TRACE)
@@ -303,6 +303,28 @@ TVBinv ==
                          ELSE {}
       IN Step(fails \cup sparseFails \cup ProjFails(s, Ev.st) \cup BindFails(lp, s.brow, s.bcol, Ev.bind) \cup OthersFails(Ev.o), Ev.o, s, memo, KeepT(Ev.o))
 
+\* ---- C11 (second half): the rational basis inverse exposed for the solver basis is the EXACT inverse of the basis
+\* matrix assembled from the current rational LP and the current basis; it is never served from a stale factorization
+TVBinvQ ==
+   /\ Ev.a = "binvq" /\ Ev.o \in Live
+   /\ LET s == objs[Ev.o]  lp == s.qlp  n == NR(lp)
+          basicIds == {j - 1 : j \in {jj \in 1..Len(s.bcol) : s.bcol[jj] = BASIC}} \cup {-i : i \in {ii \in 1..Len(s.brow) : s.brow[ii] = BASIC}}
+          proper == s.hasQ /\ s.hasBasis /\ Len(s.brow) = n /\ Len(s.bcol) = NC(lp) /\ Cardinality(basicIds) = n
+          regular == proper /\ BRDet(BasisMatrix(lp, SetToSeq(basicIds))) # "0"
+          x == Ev.res  k == Ev.idx + 1
+          B == BasisMatrix(lp, Ev.bind)
+          zero(v) == \A t \in 1..Len(v) : v[t] = "0"
+          shapeOK == Len(Ev.bind) = n /\ (Ev.kind \in {"row", "col", "times"} => Len(x) = n) /\ (Ev.kind = "times" => Len(Ev.vec) = n)
+          fails == IF ~Ev.ret THEN Fail("BinvQFalseOnRegularBasis", ~regular)
+                   ELSE IF ~regular THEN {"BinvQTrueOnSingularOrMissingBasis"}
+                   ELSE IF ~Ev.bindOK \/ ~shapeOK THEN {"BinvQ:Shape"}
+                   ELSE IF BindFails(lp, s.brow, s.bcol, Ev.bind) # {} THEN BindFails(lp, s.brow, s.bcol, Ev.bind)
+                   ELSE CASE Ev.kind = "row"   -> Fail("ExactInvRowTimesB", zero(VecSub(BRVecMat(x, B), Unit(n, k))))
+                          [] Ev.kind = "col"   -> Fail("ExactBTimesInvCol", zero(VecSub(BRMatVec(B, x), Unit(n, k))))
+                          [] Ev.kind = "times" -> Fail("ExactBTimesSolve", zero(VecSub(BRMatVec(B, x), Ev.vec)))
+                          [] OTHER -> {}
+      IN Step(fails \cup ProjFails(s, Ev.st) \cup OthersFails(Ev.o), Ev.o, s, memo, KeepT(Ev.o))
+
 \* ---- C03: exact solves are judged against the RATIONAL LP with zero tolerances
 TVWitnessQ ==
    /\ Ev.a = "witnessQ" /\ Ev.o \in Live
@@ -449,7 +471,7 @@ TVScalerBare ==
 Init == objs = <<>> /\ memo = NoMemo /\ truth = <<>> /\ l = 1
 Next == /\ l <= Len(Tr)
         /\ \/ TVReset \/ TVCreate \/ TVMod \/ TVSetInt \/ TVSetBool \/ TVSetReal \/ TVSetSettingsFrom \/ TVSync \/ TVWitness
-           \/ TVOptimize \/ TVSetBasis \/ TVClearBasis \/ TVQueryBasis \/ TVCopy \/ TVDestroy \/ TVScalerBare \/ TVBinv \/ TVWitnessQ \/ TVOptimizeQ \/ TVBasisFile \/ TVStateFile \/ TVFileRoundTrip \/ TVDualFile
+           \/ TVOptimize \/ TVSetBasis \/ TVClearBasis \/ TVQueryBasis \/ TVCopy \/ TVDestroy \/ TVScalerBare \/ TVBinv \/ TVBinvQ \/ TVWitnessQ \/ TVOptimizeQ \/ TVBasisFile \/ TVStateFile \/ TVFileRoundTrip \/ TVDualFile
 Spec == Init /\ [][Next]_vars
 
 \* acceptance: one state per consumed line plus the initial state
